@@ -100,8 +100,10 @@ CLAIMED = {
             "model-built idiom, shapes compared) and the Python oracle: PARTIAL", P,
             BT + "Known finding K3 (either_or with an odd number >= 3 of true conditions)."),
     "C19": ("theorems: for every node of every reachable state tip = None iff status INVALID, otherwise the tip is a "
-            "non-INVALID node of that subtree; the 'last childless behaviour ticked' clause is checked by oracle and "
-            "correspondence only (PARTIAL)", P, BT),
+            "non-INVALID node of that subtree; in sequence/selector trees over leaves the tip after a tick is the last "
+            "childless behaviour yielded by that tick, for every reachable state (C19_last_leaf_reachable); the clause is "
+            "refuted for states only subtree surgery can produce (C19_last_leaf_counterexample), which are outside C19's "
+            "quantifier", P, BT),
     "C20": ("theorems: one text line per behaviour in pre-order with indentation 4*(indent+depth) and newlines replaced, "
             "the *-suffix loop terminates with a fresh name, dot node names pairwise distinct for any names, #edges = "
             "#nodes-1, #nodes = #displayed behaviours (hidden subtrees omitted whole); the read-only clause holds "
